@@ -333,8 +333,15 @@ def run_triple1(case, R):
 # ---- other entry points to the same cleaning: from_attributes / clean_attributes / names variants ---
 def run_entrypoints(case, R):
     names = ("q0", "q2")
-    base_exps = [(0, 0), (1, 0), (0, 2), (1, 1)]
-    for coefs in itertools.product([0, 3], repeat=4):
+    all_exps = [(0, 0), (1, 0), (0, 2), (1, 1)]
+    # every non-empty subset of the four rows as the STORED term set (sources of one, two, three and four terms), every
+    # assignment of zero / non-zero coefficients to them
+    combos = []
+    for r in range(4, 0, -1):
+        for rows_ in itertools.combinations(all_exps, r):
+            for coefs_ in itertools.product([0, 3], repeat=r):
+                combos.append((list(rows_), coefs_))
+    for base_exps, coefs in combos:
         for rc, rn in itertools.product([False, True], repeat=2):
             krows, knames, value, _, _ = expected_triple(tuple(base_exps), coefs, names, rc, rn)
             sp = spec(names, (), list(zip(base_exps, coefs)))
